@@ -337,6 +337,343 @@ def _same_text(b, s):
     return b == (mk_str(s.t, 'bytes') if isinstance(s, SStr) else s.encode())
 
 
+# --- BodyPart accessors: name / filename / content type / text / media -------------------------------------------------
+#
+# "each [part] with the encoded name, filename (plain or RFC 5987 extended), content type ...; a structurally invalid body
+#  produces the multipart parse error (a 400), never another exception" -- the accessors read the header bytes kept by the
+# iteration, so every failure to decode / parse them must surface as MultipartParseError.
+
+_ASCII = z3.Star(z3.Range(chr(0), chr(127)))
+_DEC = z3.Function('c13.decode', z3.StringSort(), z3.StringSort(), z3.StringSort())  # (bytes, codec name) -> text
+_UNQ = z3.Function('c13.unquote_to_bytes', z3.StringSort(), z3.StringSort())
+
+
+def _is_ascii(b):
+    return mk_bool(z3.InRe(b.t, _ASCII))
+
+
+def _acc_codec(ctx, direction, s, enc, errors):
+    """bytes.decode: ASCII bytes decode to the same code points under ascii / utf-8; ascii fails exactly on a byte >= 0x80;
+    any other decoding either gives a text that is a function of (bytes, codec) or raises UnicodeDecodeError / LookupError."""
+    from pyvc.core import mk_str
+
+    assert direction == 'decode', direction
+    known_ascii_compatible = isinstance(enc, str) and enc.lower().replace('_', '-') in ('ascii', 'utf-8', 'utf8', 'latin-1')
+    if known_ascii_compatible and ctx.branch(z3.InRe(s.t, _ASCII), 'bytes-are-ascii'):
+        return mk_str(s.t, 'str')
+    strict_ascii = isinstance(enc, str) and enc.lower() == 'ascii'
+    k = 1 if strict_ascii else ctx.choose(2 if isinstance(enc, str) else 3, 'decode-outcome')
+    if k == 1:
+        ctx.raise_py(UnicodeDecodeError, 'codec', b'', 0, 1, 'invalid byte')
+    if k == 2:
+        ctx.raise_py(LookupError, 'unknown encoding')
+    e = enc.t if isinstance(enc, SStr) else z3.StringVal(enc)
+    return mk_str(_DEC(s.t, e), 'str')
+
+
+@stubclass
+class _Params:
+    """Callee contract of mediatypes.parse_header: some parameter dictionary (each parameter present or not, any text)."""
+
+    def __init__(self, v, tag):
+        self.v, self.tag, self.seen = v, tag, {}
+
+    def get(self, key, default=None):
+        if key not in self.seen:
+            self.seen[key] = self.v.str('%s_param_%s' % (self.tag, key.replace('*', '_star'))) if self.v.choose(2, 'param %s?' % key) else None
+        val = self.seen[key]
+        return default if val is None else val
+
+    def __pyvc_truth__(self):
+        return True
+
+
+def _acc_setup(reg, ex):
+    ex.codec_handler = _acc_codec
+
+
+def _acc_world(v, asgi=False, with_cd=True, with_ct=True):
+    """Headers of one part (each of the two kept headers present or not, any bytes) + callee contracts of what the accessors call."""
+    from pyvc.core import mk_str
+
+    w = type('W', (), {})()
+    w.v = v
+    w.parsed = []
+    w.mains = []
+    w.params = {}
+    w.star = {'matched': None, 'charset': None, 'raw': None, 'unquoted': None}
+    w.MPE = v.real(MP + ':MultipartParseError')
+    if not v.concrete:
+        import falcon.media.multipart as m
+
+        def parse_header(I, line):
+            w.parsed.append(line)
+            tag = 'h%d' % len(w.parsed)
+            pr = _Params(v, tag)
+            w.params[len(w.parsed) - 1] = pr
+            w.mains.append(v.str(tag + '_main'))
+            return (w.mains[-1], pr)
+
+        v.registry.add_model(m.parse_header, parse_header)
+        if asgi:
+            import falcon.asgi.multipart as am
+
+            if getattr(am, 'parse_header', m.parse_header) is not m.parse_header:
+                v.registry.add_model(am.parse_header, parse_header)
+
+        @stubclass
+        class Match:
+            def __init__(self_, charset, raw):
+                self_.g = (charset, raw)
+
+            def groups(self_):
+                return self_.g
+
+            def __pyvc_truth__(self_):
+                return True
+
+        def match(I, text, *a):
+            # the extended syntax needs two apostrophes: the empty default can never match
+            if isinstance(text, str) and "'" not in text:
+                w.star['matched'] = False
+                return None
+            if v.choose(2, 'rfc5987-matches?') == 0:
+                w.star['matched'] = False
+                return None
+            w.star.update(matched=True, charset=v.str('star_charset'), raw=v.str('star_raw'))
+            return Match(w.star['charset'], w.star['raw'])
+
+        v.registry.add_method_model(m._FILENAME_STAR_RFC5987, 'match', match)
+
+        def unquote(I, text, *a):
+            r = mk_str(_UNQ(text.t if isinstance(text, SStr) else z3.StringVal(text)), 'bytes')
+            w.star['unquoted'] = r
+            return r
+
+        v.registry.add_model(m.unquote_to_bytes, unquote)
+    headers = {}
+    w.cd = w.ct = None
+    if with_cd and v.choose(2, 'content-disposition-header?'):
+        w.cd = v.bytes('content_disposition')
+        headers[b'content-disposition'] = w.cd
+    if with_ct and v.choose(2, 'content-type-header?'):
+        w.ct = v.bytes('content_type')
+        headers[b'content-type'] = w.ct
+    w.headers = headers
+    return w
+
+
+def _text_of(b):
+    from pyvc.core import mk_str
+
+    return mk_str(b.t, 'str') if isinstance(b, SStr) else b.decode('latin-1')
+
+
+@harness(PROP, MP + ':BodyPart.content_type', setup=_acc_setup)
+def part_content_type(v):
+    w = _acc_world(v, with_cd=False)
+    part = v.obj(MP + ':BodyPart', stream=None, _headers=w.headers, _parse_options=None)
+    out = v.call(part)
+    if w.ct is None:
+        v.check('missing-content-type-defaults-to-text-plain', out.exc is None and out.value == 'text/plain')
+        v.cover('defaulted')
+        return
+    if out.exc is not None:
+        v.check('undecodable-content-type-is-a-multipart-parse-error', out.exc.isa(w.MPE))
+        if not v.concrete:
+            v.check('ascii-content-type-never-fails', Not(_is_ascii(w.ct)))
+        v.cover('raised')
+        return
+    v.check('content-type-is-the-header-value', out.value == _text_of(w.ct))
+    v.cover('returned')
+
+
+def _cd_accessor(attr):
+    def h(v):
+        w = _acc_world(v, with_ct=False)
+        UNSET = v.real(MP + ':_UNSET')
+        part = v.obj(MP + ':BodyPart', stream=None, _headers=w.headers, _parse_options=None, _content_disposition=None, _name=UNSET, _filename=UNSET)
+        out = v.call(part)
+        if out.exc is not None:
+            v.check('undecodable-content-disposition-is-a-multipart-parse-error' if (v.concrete or not w.parsed) else 'only-multipart-parse-error-escapes',
+                    out.exc.isa(w.MPE))
+            v.cover('raised')
+            return
+        if v.concrete:
+            return
+        v.check('content-disposition-parsed-exactly-once', len(w.parsed) == 1)
+        if len(w.parsed) != 1:
+            return
+        pr = w.params[0]
+        if attr == 'name':
+            nm = pr.seen.get('name')
+            v.check('name-is-the-name-parameter-or-none', out.value is None if nm is None else out.value == nm)
+        elif w.star['matched']:
+            from pyvc.core import mk_str
+
+            v.check('extended-filename-is-the-percent-decoded-value-in-its-charset',
+                    w.star['unquoted'] is not None and out.value == mk_str(_DEC(w.star['unquoted'].t, w.star['charset'].t), 'str'))
+            v.cover('extended')
+        else:
+            plain = pr.seen.get('filename')
+            v.check('filename-is-the-plain-parameter-or-none-without-an-extended-one', out.value is None if plain is None else out.value == plain)
+        # memoised: a second access does not decode or parse again
+        out2 = v.call(part)
+        v.check('second-access-returns-the-same-without-parsing-again', out2.exc is None and len(w.parsed) == 1
+                and (out2.value is out.value or out2.value == out.value))
+        v.cover('returned')
+
+    return h
+
+
+harness(PROP, MP + ':BodyPart.name', setup=_acc_setup)(_cd_accessor('name'))
+harness(PROP, MP + ':BodyPart.filename', setup=_acc_setup)(_cd_accessor('filename'))
+
+
+@harness(PROP, MP + ':BodyPart.secure_filename', inline=[MP + ':BodyPart.filename'], setup=_acc_setup)
+def part_secure_filename(v):
+    import falcon.util.misc as misc
+
+    fn = v.str('filename') if v.choose(2, 'filename?') else None
+    calls = []
+    safe = v.str('sanitized')
+
+    def secure(I, name):
+        # contract of misc.secure_filename: ValueError for the empty name, otherwise some text
+        calls.append(name)
+        if I.truth(name == '', 'empty-filename'):
+            I.ctx.raise_py(ValueError, 'filename may not be an empty string')
+        return safe
+
+    if not v.concrete:
+        v.registry.add_model(misc.secure_filename, secure)
+    part = v.obj(MP + ':BodyPart', stream=None, _headers={}, _parse_options=None, _content_disposition=None, _name=None, _filename=fn)
+    out = v.call(part)
+    if out.exc is not None:
+        v.check('only-multipart-parse-error-escapes', out.exc.isa(v.real(MP + ':MultipartParseError')))
+        if not v.concrete:
+            v.check('fails-only-for-a-missing-or-empty-filename', fn is None or fn == '')
+        v.cover('raised')
+        return
+    if not v.concrete:
+        v.check('returns-the-sanitized-filename', len(calls) == 1 and calls[0] == fn and out.value == safe)
+    v.cover('returned')
+
+
+def _get_text(asgi):
+    def h(v):
+        w = _acc_world(v, asgi=asgi, with_cd=False)
+        opts = _Opts(v)
+        st = PartStream(v, asgi)
+        cls = (AMP if asgi else MP) + ':BodyPart'
+        part = v.obj(cls, stream=st, _headers=w.headers, _parse_options=opts, _data=None)
+        out = v.call(part)
+        size, limit = Len(st.content), opts.max_body_part_buffer_size
+        if out.exc is not None:
+            v.check('only-multipart-parse-error-escapes', out.exc.isa(w.MPE))
+            v.cover('raised')
+            return
+        if v.concrete:
+            return
+        v.check('content-type-parsed-exactly-once', len(w.parsed) == 1)
+        if len(w.parsed) != 1:
+            return
+        v.check('text-is-returned-iff-the-media-type-is-text-plain', (out.value is None) == (not v.ctx.interp.truth(w.mains[0] == 'text/plain', 'is-text-plain')))
+        if out.value is None:
+            v.check('non-text-part-is-not-read', len(st.reads) == 0)
+            v.cover('not-text')
+            return
+        charset = w.params[0].seen.get('charset')
+        from pyvc.core import mk_str
+
+        enc = z3.StringVal('utf-8') if charset is None else charset.t
+        v.check('text-part-fits-the-buffer-limit', size <= limit)
+        v.check('text-is-the-part-decoded-with-its-charset-or-the-default', Or(out.value == mk_str(_DEC(st.content.t, enc), 'str'),
+                                                                              And(_is_ascii(st.content), out.value == mk_str(st.content.t, 'str'))))
+        v.cover('decoded')
+
+    return h
+
+
+_TEXT_INLINE = [MP + ':BodyPart.content_type', MP + ':BodyPart.get_data']
+harness(PROP, MP + ':BodyPart.get_text', name='get_text[wsgi]', inline=_TEXT_INLINE, setup=_acc_setup)(_get_text(False))
+harness(PROP, AMP + ':BodyPart.get_text', name='get_text[asgi]', inline=_TEXT_INLINE + [AMP + ':BodyPart.get_data'], setup=_acc_setup)(_get_text(True))
+
+
+class HandlerFailure(Exception):
+    """Whatever a media handler raises (C12: an HTTP error)."""
+
+
+def _get_media(asgi):
+    def h(v):
+        w = _acc_world(v, asgi=asgi, with_cd=False)
+        opts = _Opts(v)
+        log = {'resolved': [], 'deserialized': [], 'exhausted': 0}
+        doc = object()
+        exhaust_flag = bool(v.choose(2, 'handler.exhaust_stream?'))
+
+        @stubclass
+        class Stream:
+            def exhaust(self_):
+                log['exhausted'] += 1
+                return Ready(None) if asgi else None
+
+            def __pyvc_truth__(self_):
+                return True
+
+        st = Stream()
+
+        @stubclass
+        class Handler:
+            exhaust_stream = exhaust_flag
+
+            def _do(self_, stream, content_type, content_length):
+                log['deserialized'].append((stream, content_type, content_length))
+                if v.choose(2, 'handler-fails?'):
+                    v.ctx.raise_py(HandlerFailure, 'malformed')
+                return doc
+
+            def deserialize(self_, stream, content_type, content_length):
+                return self_._do(stream, content_type, content_length)
+
+            def deserialize_async(self_, stream, content_type, content_length):
+                return Ready(self_._do(stream, content_type, content_length))
+
+        @stubclass
+        class Handlers:
+            def _resolve(self_, media_type, default, raise_not_found=True):
+                log['resolved'].append((media_type, default))
+                return (Handler(), None, None)
+
+        opts.media_handlers = Handlers()
+        cls = (AMP if asgi else MP) + ':BodyPart'
+        part = v.obj(cls, stream=st, _headers=w.headers, _parse_options=opts, _media=v.real(MP + ':_UNSET'))
+        out = v.call(part)
+        ct_text = 'text/plain' if w.ct is None else _text_of(w.ct)
+        if out.exc is not None:
+            v.check('only-the-handler-error-or-a-multipart-parse-error-escapes', out.exc.isa(HandlerFailure) or out.exc.isa(w.MPE))
+            if out.exc.isa(HandlerFailure):
+                v.check('stream-exhausted-exactly-once-when-the-handler-asks-for-it-even-on-failure', log['exhausted'] == (1 if exhaust_flag else 0))
+            v.cover('raised')
+            return
+        v.check('handler-resolved-for-the-part-content-type-with-text-plain-default', len(log['resolved']) == 1 and log['resolved'][0][1] == 'text/plain'
+                and log['resolved'][0][0] == ct_text)
+        v.check('handler-reads-the-part-stream-once', len(log['deserialized']) == 1 and log['deserialized'][0][0] is st and log['deserialized'][0][2] is None
+                and log['deserialized'][0][1] == ct_text)
+        v.check('stream-exhausted-exactly-once-when-the-handler-asks-for-it', log['exhausted'] == (1 if exhaust_flag else 0))
+        v.check('returns-the-deserialized-document', out.value is doc)
+        out2 = v.call(part)
+        v.check('second-call-returns-the-cached-document-without-reading', out2.exc is None and out2.value is doc and len(log['deserialized']) == 1
+                and log['exhausted'] == (1 if exhaust_flag else 0))
+        v.cover('returned')
+
+    return h
+
+
+harness(PROP, MP + ':BodyPart.get_media', name='get_media[wsgi]', inline=[MP + ':BodyPart.content_type'], setup=_acc_setup)(_get_media(False))
+harness(PROP, AMP + ':BodyPart.get_media', name='get_media[asgi]', inline=[MP + ':BodyPart.content_type'], setup=_acc_setup)(_get_media(True))
+
+
 _MPF = 'falcon/media/multipart.py'
 _AMPF = 'falcon/asgi/multipart.py'
 KILLS = [
@@ -352,6 +689,19 @@ KILLS = [
     (_MPF, "        if not 1 <= len(boundary) <= 70:\n", "        if not 1 <= len(boundary) < 70:\n", '_deserialize_form#boundary-must-be-present-and-1-to-70-characters'),
     (_AMPF, "        max_size = self._parse_options.max_body_part_buffer_size + 1\n", "        max_size = self._parse_options.max_body_part_buffer_size\n",
      'asgi.multipart:BodyPart.get_data#buffered-size-limit-exact-at-threshold'),
+    # accessors: the repaired defects come back
+    (_MPF, "        try:\n            return value.decode('ascii')\n        except ValueError as err:\n", "        try:\n            return value.decode('ascii')\n        except KeyError as err:\n",
+     'BodyPart.content_type#undecodable-content-type-is-a-multipart-parse-error'),
+    (_MPF, "            _, params = self._content_disposition\n            self._name = params.get('name')\n", "            _, params = self._content_disposition\n            self._name = params.get('filename')\n",
+     'BodyPart.name#name-is-the-name-parameter-or-none'),
+    (_MPF, "        if content_type != 'text/plain':\n            return None\n", "        if content_type == 'text/plain':\n            return None\n", 'BodyPart.get_text#text-is-returned-iff-the-media-type-is-text-plain'),
+    (_MPF, "                if handler.exhaust_stream:\n                    self.stream.exhaust()\n", "                pass\n", 'BodyPart.get_media#stream-exhausted-exactly-once'),
+    (_MPF, "            else:\n                self._filename = params.get('filename')\n", "            else:\n                self._filename = params.get('name')\n",
+     'BodyPart.filename#filename-is-the-plain-parameter-or-none-without-an-extended-one'),
+    (_AMPF, "        if content_type != 'text/plain':\n            return None\n", "        if content_type == 'text/plain':\n            return None\n",
+     'asgi.multipart:BodyPart.get_text#text-is-returned-iff-the-media-type-is-text-plain'),
+    (_AMPF, "            finally:\n                if handler.exhaust_stream:\n                    await self.stream.exhaust()\n", "            finally:\n                pass\n",
+     'asgi.multipart:BodyPart.get_media#stream-exhausted-exactly-once'),
 ]
 
 ASSUMPTIONS = [
@@ -361,7 +711,8 @@ ASSUMPTIONS = [
 NOT_DECIDED = [
     '"iterating yields exactly the encoded parts (name, filename, content type, exact content bytes) for every body, chunking and consumption pattern": '
     'needs the delimiter-search lemmas of the reader (C14 leaves _read_until bounded); not decided by this check',
-    'BodyPart.name / filename / secure_filename / get_text / get_media (regex and codec based) -- error mapping to MultipartParseError only by reading',
+    'what the opaque helpers compute: mediatypes.parse_header, the RFC 5987 regular expression, urllib unquote_to_bytes, misc.secure_filename and the '
+    'codecs are callee contracts (any parameters / any text / documented exceptions); that name and filename EQUAL what a reference encoder wrote is not decided',
     'WSGI and ASGI parsers agree: both satisfy the same contracts above; the byte-level agreement is not decided',
 ]
 TRUSTED = ['stubs PartStream / FormStream / HeaderBlock in contracts/C13_multipart.py']
